@@ -44,6 +44,15 @@ func idOffset(p *rc.Packet, wire []byte) int {
 func checkBuild(p *rc.Packet, autoID bool) {
 	tn := rc.TypeName(p.Type)
 	out.Count("c03.build", 1)
+	if connectBuildVariant == 0 && connectVariantApplies(p) {
+		// the same record through the value setters alone, in two orders
+		for v := 1; v <= 2; v++ {
+			connectBuildVariant = v
+			checkBuild(p, autoID)
+			out.Count("c03.build.connect_setter_orders", 1)
+		}
+		connectBuildVariant = 0
+	}
 	m, err := libBuild(p, autoID)
 	if err != nil {
 		if _, ok := err.(errUnbuildable); ok {
